@@ -120,13 +120,12 @@ func nodeClass(cx *explore.Ctx, q run.Query) string {
 
 func C02(tier string) int {
 	c := report.NewCollector("C02")
-	cases := explore.Cases(explore.CaseOpts{Tier: tier, Prefixes: true, Edits: tier == "thorough", Seqs: tier == "thorough"})
-	cases = append(cases, jsonCases(tier)...)
-	explore.Sweep(cases, c, explore.Deadline(tier), explore.Opts{
+	groups := explore.Groups(explore.CaseOpts{Tier: tier, Prefixes: true, Edits: tier == "thorough", Seqs: tier == "thorough"})
+	groups = append(groups, func() []explore.Case { return jsonCases(tier) })
+	explore.SweepGroups(groups, c, explore.Deadline(tier), explore.Opts{
 		Kinds:    allKinds,
 		OnResult: c02Result,
 	})
-	c.Count("cases", int64(len(cases)))
 	return c.Finish(report.FinishOpts{
 		Tier: tier, Level: "exploration", EvalCounter: "calls",
 		Rule: "E1 sweep (rune-boundary cursors) with a typed range extractor over every result value: candidates' edits, hover, tokens, symbols (recursively), targets (range/def/targetable-from, nested), origins, lookups, links, diagnostics; each range checked for file-of-path, 0<=start<=end<=len, and line/column recomputed independently from the bytes; non-trivial = result carried at least one range",
